@@ -56,6 +56,9 @@ def _cases(draw):
         form.setdefault("settings", {})["flat"] = g.pick(["no", "false", "FALSE", "No"])      # a yes/no setting, switched off
     if g.p("_", 0.15):
         form["nodes"].append({"k": "q", "c": {"type": "audit", "name": "audit"} if g.p("_", 0.5) else {"type": "audit"}})
+    if g.p("_", 0.15):
+        # the workbook as a spreadsheet or CSV file the way people keep them: header-less spacer columns, runs of blank rows, typed numbers
+        form["carrier"] = {"fmt": g.pick(["xlsx", "xls", "csv", "csv"]), "seed": g.integer(0, 9999)}
     return {"form": form}
 
 
